@@ -427,12 +427,77 @@ pub fn run(ctx: &Ctx) -> CheckOutput {
 			}
 		}
 	}
+	// inputs of every exact size around the page / buffer / pipe sizes, complete and with a malformed
+	// last document, as a regular file, a FIFO and on standard input: same status discipline
+	let mut sized: Vec<(usize, bool, u8)> = vec![];
+	for size in crate::gen::size_ladder(false) {
+		for bad in [false, true] {
+			for supply in 0..3u8 {
+				sized.push((size, bad, supply));
+			}
+		}
+	}
+	let sdir = dir.clone();
+	let ts = par_fold(&sized, Tally::default, |t, idx, &(size, bad, supply)| {
+		let mut data = super::c14::json_stream_exact(size);
+		if bad {
+			let n = data.len();
+			data[n - 3] = b'@'; // the closing quote of the last document
+		}
+		let sub = sdir.join(format!("sized{idx}"));
+		std::fs::create_dir_all(&sub).unwrap();
+		let name = "stream";
+		let argv: Vec<&str> = if supply == 2 { vec!["-tj"] } else { vec!["-tj", name] };
+		let mut sp = Spawn::new(&sub, &argv);
+		let mut th = None;
+		match supply {
+			0 => {
+				std::fs::write(sub.join(name), &data).unwrap();
+			}
+			1 => {
+				let p = sub.join(name);
+				proc::mkfifo(&p);
+				let d = data.clone();
+				th = Some(std::thread::spawn(move || {
+					use std::io::Write;
+					if let Ok(mut f) = std::fs::OpenOptions::new().write(true).open(&p) {
+						let _ = f.write_all(&d);
+					}
+				}));
+			}
+			_ => sp.stdin = Stdin::Bytes(data.clone()),
+		}
+		sp.timeout = std::time::Duration::from_secs(20);
+		let o = proc::run(&sp);
+		if let Some(th) = th {
+			if !th.is_finished() {
+				use std::os::unix::fs::OpenOptionsExt;
+				let _ = std::fs::OpenOptions::new().read(true).custom_flags(libc::O_NONBLOCK).open(sub.join(name));
+			}
+			let _ = th.join();
+		}
+		let _ = std::fs::remove_dir_all(&sub);
+		t.evaluations += 1;
+		t.count("sized-inputs");
+		t.nontrivial(crate::util::fnv(&[&size.to_le_bytes(), &[u8::from(bad), supply]]));
+		let lib = if supply == 0 { crate::run::run_slice(&data, None, F::Json) } else { crate::run::run_reader(crate::run::ChunkReader::new(&data, 0), None, F::Json) };
+		let what = ["regular file", "FIFO", "standard input"][supply as usize];
+		let good = match (&o.exit, lib.ok) {
+			(Exit::Code(0), true) => o.stdout == lib.out && o.stderr.is_empty(),
+			(Exit::Code(1), false) => o.stderr.starts_with(b"xt error") && String::from_utf8_lossy(&o.stderr).contains(if supply == 2 { "standard input" } else { name }) && lib.out.starts_with(&o.stdout),
+			_ => false,
+		};
+		if !good {
+			t.bad("sized-input-wrong-status-or-output", json!({"kind": "sized", "size": size, "malformed_tail": bad, "supply": what}), format!("a {}JSON stream of {size} bytes as a {what}: {} | library: ok={} {} bytes, err {}", if bad { "malformed-at-the-end " } else { "" }, o.brief(), lib.ok, lib.out.len(), lib.err));
+		}
+	});
+	tally.merge(Tally::merge_all(ts));
 	let req = |k: &str| (k.to_string(), *tally.counters.get(k).unwrap_or(&0));
-	let required = vec![req("argv:invalid"), req("argv:help"), req("argv:valid"), req("stdout:Pipe"), req("stdout:File"), req("stdout:Pty"), req("stdout:DevFull"), req("stdin:two-bursts")];
+	let required = vec![req("sized-inputs"), req("argv:invalid"), req("argv:help"), req("argv:valid"), req("stdout:Pipe"), req("stdout:File"), req("stdout:Pty"), req("stdout:DevFull"), req("stdin:two-bursts")];
 	CheckOutput {
 		level: "exploration",
 		tally,
-		rule: format!("all argument vectors of length <= {} over a vocabulary of {} words (-f/-t with valid names and aliases in attached, detached and '=' form, missing values, invalid names, repeated options, unknown short/long options, -h --help -V --version, '--', '-', translatable / malformed / undetectable / unrepresentable / missing / directory paths) x stdin in {{translatable, malformed, empty}} x stdout in {{pipe, regular file, pseudo-terminal}} (+ /dev/full for the short vectors: a run with output must then exit 1 with 'xt error'), run through the real binary (debug and release alternating); reference model: conventional option parsing per doc/xt.1 (invalid, asks_help) plus the library's own verdict and bytes for the input list. Oracle: exit 2 <=> invalid (and no help request) with empty stdout and an 'xt error' + usage message on stderr; exit 0 <=> help/version or every input translated, stdout exactly the help text or the library's bytes; otherwise exit 1, stderr begins 'xt error' and names the failing input, stdout is a byte prefix of the library's bytes; MessagePack never reaches a terminal; never a signal. Non-trivial = valid argv without help.", if thorough { "3 (+ length 4 behind two fixed heads)" } else { "2 (all combinations) and 3 (two stdin/stdout combinations)" }, vocab.len()),
+		rule: format!("all argument vectors of length <= {} over a vocabulary of {} words (-f/-t with valid names and aliases in attached, detached and '=' form, missing values, invalid names, repeated options, unknown short/long options, -h --help -V --version, '--', '-', translatable / malformed / undetectable / unrepresentable / missing / directory paths) x stdin in {{translatable, malformed, empty}} x stdout in {{pipe, regular file, pseudo-terminal}} (+ /dev/full for the short vectors: a run with output must then exit 1 with 'xt error'), run through the real binary (debug and release alternating); reference model: conventional option parsing per doc/xt.1 (invalid, asks_help) plus the library's own verdict and bytes for the input list. Oracle: exit 2 <=> invalid (and no help request) with empty stdout and an 'xt error' + usage message on stderr; exit 0 <=> help/version or every input translated, stdout exactly the help text or the library's bytes; otherwise exit 1, stderr begins 'xt error' and names the failing input, stdout is a byte prefix of the library's bytes; MessagePack never reaches a terminal; never a signal. Plus JSON streams of every exact size 2^k-1, 2^k, 2^k+1 around 4 KiB..64 KiB, complete and malformed at the end, as a regular file, a FIFO and on standard input: exit 0 with the library's bytes and empty stderr, or exit 1 naming the input with a prefix of them. Non-trivial = valid argv without help.", if thorough { "3 (+ length 4 behind two fixed heads)" } else { "2 (all combinations) and 3 (two stdin/stdout combinations)" }, vocab.len()),
 		exhaustive: true,
 		bounds: json!({"argv_len": if thorough { 4 } else { 3 }, "vocabulary": vocab.len()}),
 		assumptions: vec!["the reference model of option parsing is written from the statement and doc/xt.1; argv that is both invalid and help-requesting may exit 0 or 2".into()],
